@@ -377,6 +377,12 @@ func workCurve(rc *recorder, rng *rand.Rand, scale int) {
 		if i%8 == 0 {
 			tbl := curve.NewEdwardsBasepointTable(P.Lib)
 			rc.out("NewEdwardsBasepointTable", encE(tbl.Basepoint()), encE(curve.NewEdwardsPoint().MulBasepoint(tbl, s)))
+			// what an accessor hands out is the caller's: used as a receiver, then the accessor is asked again
+			bp := tbl.Basepoint()
+			bp.Add(bp, bp)
+			bp2 := curve.ED25519_BASEPOINT_TABLE.Basepoint()
+			bp2.Neg(bp2)
+			rc.out("EdwardsBasepointTable.Basepoint(after the previous result was overwritten)", encE(tbl.Basepoint()), encE(curve.ED25519_BASEPOINT_TABLE.Basepoint()), encR(curve.RISTRETTO_BASEPOINT_TABLE.Basepoint()))
 		}
 		var c1, c2 curve.CompressedEdwardsY
 		c1.SetEdwardsPoint(P.Lib)
